@@ -181,9 +181,10 @@ class Dictionary:
         ):
             # evict the oldest entry, never the one that was just added
             oldest = next(
-                key for key in cache if key != self._settings.registry_key
+                (key for key in cache if key != self._settings.registry_key), None
             )
-            cache.pop(oldest)
+            if oldest is not None:
+                cache.pop(oldest)
 
     def _split_by_known_words(self, string: str, keep_formatting: bool):
         regex = self._get_split_regex_cache()
